@@ -138,7 +138,8 @@ pub enum Ev {
 #[derive(Serialize, Deserialize, Clone, Debug)]
 pub struct Case {
     pub mempool_visitor: bool,
-    /// 0: no flags, 1: COST_CONDITIONS, 2: MEMPOOL_MODE, 3: MEMPOOL_MODE|COST_CONDITIONS
+    /// 0: no flags, 1: COST_CONDITIONS, 2: MEMPOOL_MODE, 3: MEMPOOL_MODE|COST_CONDITIONS, 4: NO_UNKNOWN_CONDS,
+    /// 5: LIMIT_SPENDS|COST_CONDITIONS, 6: COST_CONDITIONS with signature validation on (when no AGG_SIG filler)
     pub flagset: u8,
     pub spends: Vec<Spend>,
     pub h0: u32,
@@ -564,13 +565,18 @@ fn build_tree(a: &mut Allocator, case: &Case, b: &Built) -> NodePtr {
 }
 
 fn flags_of(case: &Case) -> ConsensusFlags {
-    let base = match case.flagset {
-        0 => ConsensusFlags::empty(),
-        1 => ConsensusFlags::COST_CONDITIONS,
-        2 => MEMPOOL_MODE,
-        _ => MEMPOOL_MODE | ConsensusFlags::COST_CONDITIONS,
-    };
-    base | ConsensusFlags::DONT_VALIDATE_SIGNATURE
+    let has_agg_sig = case.spends.iter().any(|s| s.fillers.iter().any(|f| f.1 == 2));
+    match case.flagset {
+        0 => ConsensusFlags::DONT_VALIDATE_SIGNATURE,
+        1 => ConsensusFlags::COST_CONDITIONS | ConsensusFlags::DONT_VALIDATE_SIGNATURE,
+        2 => MEMPOOL_MODE | ConsensusFlags::DONT_VALIDATE_SIGNATURE,
+        3 => MEMPOOL_MODE | ConsensusFlags::COST_CONDITIONS | ConsensusFlags::DONT_VALIDATE_SIGNATURE,
+        4 => ConsensusFlags::NO_UNKNOWN_CONDS | ConsensusFlags::DONT_VALIDATE_SIGNATURE,
+        5 => ConsensusFlags::LIMIT_SPENDS | ConsensusFlags::COST_CONDITIONS | ConsensusFlags::DONT_VALIDATE_SIGNATURE,
+        // signature validation switched on: the identity signature is valid when there is no AGG_SIG condition
+        _ if !has_agg_sig => ConsensusFlags::COST_CONDITIONS,
+        _ => ConsensusFlags::COST_CONDITIONS | ConsensusFlags::DONT_VALIDATE_SIGNATURE,
+    }
 }
 
 pub struct C03;
@@ -852,7 +858,7 @@ impl Engine for C03 {
     }
     fn default_runs(&self, tier: Tier) -> u64 {
         match tier {
-            Tier::Quick => 2_000_000,
+            Tier::Quick => 8_000_000,
             Tier::Thorough => 200_000_000,
         }
     }
@@ -985,7 +991,7 @@ impl Engine for C03 {
         }
         let mut case = Case {
             mempool_visitor: rng.chance(1, 2),
-            flagset: rng.below(4) as u8,
+            flagset: rng.below(7) as u8,
             spends,
             h0: 0,
             t0: 0,
